@@ -11,7 +11,9 @@ STREAMS = [("C11", 2500, 100000)]
 SHARD = 5000
 RULE = ("sparse random weighted multigraphs on 1..8 nodes, costs -6..9, with unreachable parts, directed (70% of the "
         "undirected ones are made non-negative, since a negative undirected edge is already a negative cycle), one case in "
-        "five an acyclic graph on 7..11 nodes with exponentially spread negative costs; encodings Graph, StableGraph with "
+        "five an acyclic graph on 7..11 nodes with exponentially spread negative costs, 12% of the others with non-negative costs "
+        "near i32::MAX on half of their edges (path sums overflow i32: the i32 instances must skip, not wrap); every bellman_ford query "
+        "is repeated on an f32 copy; encodings Graph, StableGraph with "
         "vacancies, GraphMap, Csr, adj::List, MatrixGraph with removed ids; per case bellman_ford (f64), find_negative_cycle "
         "(f64), spfa (i32) from two sources, floyd_warshall or floyd_warshall_path (i32) on compact types; everything is "
         "compared exactly with the model. distinct = sha1 of view+queries; non-trivial = at least one negative edge and 4 edges")
